@@ -1,7 +1,7 @@
 //go:build verif
 
 // Package verifc35 holds what the C35 harnesses (core live listeners, servers/moq in-process session)
-// share: boundary-value generators, byte-level mutators and the MoQ stream-script generator.
+// share: the choice source, boundary-value generators, byte-level mutators and the MoQ stream-script generator.
 // Mounted into /repo/internal/verifc35 by the driver (checks/C35.json "mount").
 package verifc35
 
@@ -12,26 +12,135 @@ import (
 	"pgregory.net/rapid"
 )
 
+// Src is the source of every choice of one generated input.
+//
+// rapid's integer and SampledFrom draws are deliberately skewed towards small values / first elements
+// (IntRange(0,39)==0 comes up ~11% of the time, not 2.5%), which is right for sizes but makes "rarely do X"
+// knobs fire all the time, and valid exchanges then die at the first request. Src therefore draws 64 fair bits
+// from rapid (rapid.Bool is one fair bit) per input and expands them with splitmix64: every choice is a pure
+// function of rapid draws (reproducible from the rapid seed / fail file), with the probabilities written in the
+// generators. Content (strings, byte slices) still comes from rapid's own generators.
+type Src struct {
+	T      *rapid.T
+	prefix string
+	state  uint64
+	n      int
+	// Oddity gate: 0 = only valid traffic with semantic variety, 1 = about one oddity per exchange, 2 = many
+	Level int
+}
+
+// NewSrc draws the seed of one input.
+func NewSrc(t *rapid.T, prefix string) *Src {
+	bits := rapid.SliceOfN(rapid.Bool(), 64, 64).Draw(t, prefix+".seed")
+	var st uint64
+	for _, b := range bits {
+		st <<= 1
+		if b {
+			st |= 1
+		}
+	}
+	return NewSrcSeed(t, prefix, st)
+}
+
+// NewSrcSeed builds a source from an explicit seed (t may be nil if no content draw is made).
+func NewSrcSeed(t *rapid.T, prefix string, seed uint64) *Src {
+	s := &Src{T: t, prefix: prefix, state: seed}
+	switch x := s.Intn(100); {
+	case x < 30:
+		s.Level = 0
+	case x < 85:
+		s.Level = 1
+	default:
+		s.Level = 2
+	}
+	return s
+}
+
+func (s *Src) next() uint64 {
+	s.state += 0x9e3779b97f4a7c15
+	z := s.state
+	z = (z ^ (z >> 30)) * 0xbf58476d1ce4e5b9
+	z = (z ^ (z >> 27)) * 0x94d049bb133111eb
+	return z ^ (z >> 31)
+}
+
+// Label returns a fresh rapid label (for content draws).
+func (s *Src) Label(what string) string {
+	s.n++
+	return fmt.Sprintf("%s.%s%d", s.prefix, what, s.n)
+}
+
+// Intn is uniform in [0,n).
+func (s *Src) Intn(n int) int {
+	if n <= 1 {
+		return 0
+	}
+	return int(s.next() % uint64(n))
+}
+
+// Range is uniform in [lo,hi].
+func (s *Src) Range(lo, hi int) int { return lo + s.Intn(hi-lo+1) }
+
+// Chance is true once in oneIn (neutral choices: not an oddity).
+func (s *Src) Chance(oneIn int) bool { return s.Intn(oneIn) == 0 }
+
+// Odd is true once in oneIn when the input may be odd at all (see Level).
+func (s *Src) Odd(oneIn int) bool {
+	switch s.Level {
+	case 0:
+		return false
+	case 2:
+		oneIn = (oneIn + 3) / 4
+	}
+	return s.Intn(oneIn) == 0
+}
+
+// OddCase returns -1 (stay normal) or one of nOdd odd variants; an odd variant is picked once in oneIn.
+func (s *Src) OddCase(oneIn, nOdd int) int {
+	if !s.Odd(oneIn) {
+		return -1
+	}
+	return s.Intn(nOdd)
+}
+
+// Pick chooses uniformly.
+func (s *Src) Pick(opts ...string) string { return opts[s.Intn(len(opts))] }
+
+// PickBytes chooses uniformly.
+func (s *Src) PickBytes(opts ...[]byte) []byte { return opts[s.Intn(len(opts))] }
+
+// Bytes: random content. From rapid when possible, from the expanded seed otherwise.
+func (s *Src) Bytes(min, max int) []byte {
+	if s.T == nil {
+		out := make([]byte, s.Range(min, max))
+		for i := range out {
+			out[i] = byte(s.next())
+		}
+		return out
+	}
+	return rapid.SliceOfN(rapid.Byte(), min, max).Draw(s.T, s.Label("bytes"))
+}
+
 var evilUints = []uint64{
 	0, 1, 2, 3, 7, 8, 63, 64, 95, 96, 97, 127, 128, 255, 256, 1023, 1024, 1500, 4095, 4096, 16383, 16384,
 	65534, 65535, 65536, 90000, 1 << 24, 1<<30 - 1, 1 << 30, 1<<31 - 1, 1 << 31, 1<<32 - 1, 1 << 32,
 	1<<53 - 1, 1 << 53, 1<<62 - 1, 1 << 62, 1<<63 - 1, 1 << 63, 1<<64 - 1,
 }
 
-// EvilUint draws an unsigned integer biased to boundaries.
-func EvilUint(t *rapid.T, label string) uint64 {
-	if rapid.IntRange(0, 3).Draw(t, label+"Kind") == 0 {
-		return rapid.Uint64().Draw(t, label)
+// EvilUint is a boundary value (3 in 4) or any 64-bit value.
+func (s *Src) EvilUint() uint64 {
+	if s.Chance(4) {
+		return s.next()
 	}
-	return rapid.SampledFrom(evilUints).Draw(t, label)
+	return evilUints[s.Intn(len(evilUints))]
 }
 
-// SmallOrEvilUint is mostly a small number (so that valid structure survives), sometimes a boundary.
-func SmallOrEvilUint(t *rapid.T, label string, small int) uint64 {
-	if rapid.IntRange(0, 3).Draw(t, label+"Kind") != 0 {
-		return uint64(rapid.IntRange(0, small).Draw(t, label))
+// SmallOrEvilUint is a small number (so that valid structure survives) unless the oddity gate fires.
+func (s *Src) SmallOrEvilUint(small int, oneIn int) uint64 {
+	if s.Odd(oneIn) {
+		return s.EvilUint()
 	}
-	return EvilUint(t, label)
+	return uint64(s.Intn(small + 1))
 }
 
 var evilNumStrs = []string{
@@ -43,16 +152,24 @@ var evilNumStrs = []string{
 	"0.000000001", "1000000000", "3600", "1h", "-1h", "1ns", "9223372036s", "2562047h47m16.854775807s", "1e18s",
 }
 
-// EvilNumStr draws the textual form of a number (or something that almost is one).
-func EvilNumStr(t *rapid.T, label string) string {
-	switch rapid.IntRange(0, 4).Draw(t, label+"Kind") {
+// EvilNumStr is the textual form of a number (or something that almost is one).
+func (s *Src) EvilNumStr() string {
+	switch s.Intn(5) {
 	case 0:
-		return fmt.Sprint(rapid.IntRange(0, 20).Draw(t, label))
+		return fmt.Sprint(s.Intn(21))
 	case 1:
-		return fmt.Sprint(rapid.Int64().Draw(t, label))
+		return fmt.Sprint(int64(s.next()))
 	default:
-		return rapid.SampledFrom(evilNumStrs).Draw(t, label)
+		return evilNumStrs[s.Intn(len(evilNumStrs))]
 	}
+}
+
+// NumStr is normal unless the oddity gate fires.
+func (s *Src) NumStr(normal string, oneIn int) string {
+	if s.Odd(oneIn) {
+		return s.EvilNumStr()
+	}
+	return normal
 }
 
 var evilTokens = []string{
@@ -62,114 +179,125 @@ var evilTokens = []string{
 	"live", "live/", "/live", "LIVE", "live2", "all_others", "publish", "whip", "whep", "index.m3u8", "list", "get",
 }
 
-// EvilToken draws a short string that is special for some syntax.
-func EvilToken(t *rapid.T, label string) string {
-	switch rapid.IntRange(0, 5).Draw(t, label+"Kind") {
+// EvilToken is a short string that is special for some syntax.
+func (s *Src) EvilToken() string {
+	switch s.Intn(6) {
 	case 0:
-		return rapid.StringMatching(`[a-zA-Z0-9_\-./]{1,12}`).Draw(t, label)
+		if s.T != nil {
+			return rapid.StringMatching(`[a-zA-Z0-9_\-./]{1,12}`).Draw(s.T, s.Label("tok"))
+		}
+		return "abc"
 	case 1:
-		return rapid.StringN(0, 10, -1).Draw(t, label)
+		if s.T != nil {
+			return rapid.StringN(0, 10, -1).Draw(s.T, s.Label("tok"))
+		}
+		return "xyz"
 	case 2:
-		a := rapid.SampledFrom(evilTokens).Draw(t, label+"A")
-		b := rapid.SampledFrom(evilTokens).Draw(t, label+"B")
-		return a + b
+		return evilTokens[s.Intn(len(evilTokens))] + evilTokens[s.Intn(len(evilTokens))]
 	default:
-		return rapid.SampledFrom(evilTokens).Draw(t, label)
+		return evilTokens[s.Intn(len(evilTokens))]
 	}
 }
 
-// LongString draws a string whose length is the point (buffer limits), content repetitive.
-func LongString(t *rapid.T, label string) string {
-	n := rapid.SampledFrom([]int{64, 255, 256, 257, 511, 512, 1023, 1024, 2047, 2048, 4095, 4096, 4097, 8192, 16384, 65535, 65536, 70000, 200000}).Draw(t, label+"Len")
-	unit := rapid.SampledFrom([]string{"A", "a/", "%41", "é", "../", "0", " ", "\x00", ",", "a=b&", "a:"}).Draw(t, label+"Unit")
+// LongString: the length is the point (buffer limits); content repetitive.
+func (s *Src) LongString() string {
+	lens := []int{64, 255, 256, 257, 511, 512, 1023, 1024, 2047, 2048, 4095, 4096, 4097, 8192, 16384, 65535, 65536, 70000, 200000}
+	n := lens[s.Intn(len(lens))]
+	unit := s.Pick("A", "a/", "%41", "é", "../", "0", " ", "\x00", ",", "a=b&", "a:")
 	r := strings.Repeat(unit, n/len(unit)+1)
 	return r[:n]
 }
 
 // MaybeLong is EvilToken most of the time and LongString rarely.
-func MaybeLong(t *rapid.T, label string) string {
-	if rapid.IntRange(0, 24).Draw(t, label+"Long") == 0 {
-		return LongString(t, label)
+func (s *Src) MaybeLong() string {
+	if s.Chance(20) {
+		return s.LongString()
 	}
-	return EvilToken(t, label)
+	return s.EvilToken()
 }
 
-// PathName draws a path name: mostly one that exists ("live" has an always-available stream, pub* may have been
-// published by an earlier input), sometimes junk.
-func PathName(t *rapid.T, label string) string {
-	switch rapid.IntRange(0, 9).Draw(t, label+"Kind") {
-	case 0, 1, 2, 3, 4:
+// Token is normal unless the oddity gate fires.
+func (s *Src) Token(normal string, oneIn int) string {
+	if s.Odd(oneIn) {
+		return s.MaybeLong()
+	}
+	return normal
+}
+
+// PathName: mostly a path that exists ("live" has an always-available stream, pub0..3 may have been
+// published by an earlier input), sometimes a missing or malformed one.
+func (s *Src) PathName() string {
+	switch x := s.Intn(20); {
+	case x < 11:
 		return "live"
-	case 5, 6:
-		return fmt.Sprintf("pub%d", rapid.IntRange(0, 3).Draw(t, label+"N"))
-	case 7:
-		return rapid.SampledFrom([]string{"nonexistent", "a/b/c", "live/sub", "all_others", "~^.*$", "live ", "Live", ".", "..", "a/../live", "live%2f", "live%00", "live\x00", "/live", "live/", "", "a//b"}).Draw(t, label)
+	case x < 15:
+		return fmt.Sprintf("pub%d", s.Intn(4))
+	case x < 16:
+		return "nonexistent"
 	default:
-		return MaybeLong(t, label)
+		if !s.Odd(2) {
+			return "live"
+		}
+		if s.Chance(2) {
+			return s.Pick("a/b/c", "live/sub", "all_others", "~^.*$", "live ", "Live", ".", "..", "a/../live", "live%2f", "live%00", "live\x00", "/live", "live/", "", "a//b")
+		}
+		return s.MaybeLong()
 	}
 }
 
-// MutateBytes applies 0-3 byte-level mutations (construction first, then damage).
-func MutateBytes(t *rapid.T, label string, b []byte) []byte {
-	n := rapid.SampledFrom([]int{0, 0, 0, 1, 1, 2, 3}).Draw(t, label+"Muts")
+// MutateBytesAlways applies 1-3 byte-level mutations.
+func (s *Src) MutateBytesAlways(b []byte) []byte {
 	out := append([]byte(nil), b...)
+	n := s.Range(1, 3)
 	for i := 0; i < n; i++ {
-		out = mutateOnce(t, fmt.Sprintf("%s%d", label, i), out)
+		out = s.mutateOnce(out)
 	}
 	return out
 }
 
-// MutateBytesAlways applies at least one mutation.
-func MutateBytesAlways(t *rapid.T, label string, b []byte) []byte {
-	n := rapid.IntRange(1, 3).Draw(t, label+"Muts")
-	out := append([]byte(nil), b...)
-	for i := 0; i < n; i++ {
-		out = mutateOnce(t, fmt.Sprintf("%s%d", label, i), out)
+// MutateBytes damages b once in oneIn (oddity gate).
+func (s *Src) MutateBytes(b []byte, oneIn int) []byte {
+	if !s.Odd(oneIn) {
+		return b
 	}
-	return out
+	return s.MutateBytesAlways(b)
 }
 
-func mutateOnce(t *rapid.T, label string, b []byte) []byte {
+func (s *Src) mutateOnce(b []byte) []byte {
 	if len(b) == 0 {
-		return rapid.SliceOfN(rapid.Byte(), 1, 8).Draw(t, label+"Fresh")
+		return s.Bytes(1, 8)
 	}
-	pos := rapid.IntRange(0, len(b)-1).Draw(t, label+"Pos")
-	switch rapid.IntRange(0, 8).Draw(t, label+"Op") {
+	pos := s.Intn(len(b))
+	switch s.Intn(9) {
 	case 0: // truncate
 		return b[:pos]
-	case 1: // set byte to boundary
-		b[pos] = rapid.SampledFrom([]byte{0, 1, 0x7f, 0x80, 0xff, 0x3f, 0x40, 0xc0}).Draw(t, label+"Val")
+	case 1: // boundary byte
+		b[pos] = []byte{0, 1, 0x7f, 0x80, 0xff, 0x3f, 0x40, 0xc0}[s.Intn(8)]
 		return b
-	case 2: // flip a bit
-		b[pos] ^= 1 << uint(rapid.IntRange(0, 7).Draw(t, label+"Bit"))
+	case 2: // bit flip
+		b[pos] ^= 1 << uint(s.Intn(8))
 		return b
-	case 3: // random byte
-		b[pos] = rapid.Byte().Draw(t, label+"Val")
+	case 3:
+		b[pos] = byte(s.next())
 		return b
-	case 4: // insert bytes
-		ins := rapid.SliceOfN(rapid.Byte(), 1, 6).Draw(t, label+"Ins")
+	case 4: // insert
+		ins := s.Bytes(1, 6)
 		return append(append(append([]byte(nil), b[:pos]...), ins...), b[pos:]...)
 	case 5: // delete a run
-		end := pos + rapid.IntRange(1, 8).Draw(t, label+"Run")
-		if end > len(b) {
-			end = len(b)
-		}
+		end := min(pos+s.Range(1, 8), len(b))
 		return append(append([]byte(nil), b[:pos]...), b[end:]...)
 	case 6: // duplicate a run
-		end := pos + rapid.IntRange(1, 32).Draw(t, label+"Run")
-		if end > len(b) {
-			end = len(b)
-		}
+		end := min(pos+s.Range(1, 32), len(b))
 		return append(append(append([]byte(nil), b[:end]...), b[pos:end]...), b[end:]...)
-	case 7: // overwrite 2..4 bytes with 0xff / 0x00 (length fields)
-		v := rapid.SampledFrom([]byte{0xff, 0x00, 0x7f, 0x80}).Draw(t, label+"Fill")
-		w := rapid.IntRange(2, 4).Draw(t, label+"W")
+	case 7: // overwrite 2..4 bytes (length fields)
+		v := []byte{0xff, 0x00, 0x7f, 0x80}[s.Intn(4)]
+		w := s.Range(2, 4)
 		for i := pos; i < pos+w && i < len(b); i++ {
 			b[i] = v
 		}
 		return b
 	default: // append junk
-		return append(b, rapid.SliceOfN(rapid.Byte(), 1, 16).Draw(t, label+"Tail")...)
+		return append(b, s.Bytes(1, 16)...)
 	}
 }
 
